@@ -239,7 +239,10 @@ class t2incon(object):
         else:
             outfile.write('+++\n')
             timing_fmt = 'timing'
-            if self.simulator == 'TOUGHREACT': timing_fmt += '_toughreact'
+            # (TOUGHREACT files are recognised on reading by their permeabilities)
+            if self.simulator == 'TOUGHREACT' and \
+               any([incon.permeability is not None for incon in self._blocklist]):
+                timing_fmt += '_toughreact'
             outfile.write_value_line(self.timing, timing_fmt)
         outfile.close()
 
